@@ -272,10 +272,10 @@ class Resolver:
                     pass
             return matches
 
-        matches = self.__find(node, name, remainder)
-        if not matches and not Resolver.is_wildcard(name) and not self.relax:
-            raise ChildResolverError(node, name, self.pathattr)
-        return matches
+        if not Resolver.is_wildcard(name) and not self.relax:
+            if not any(self.__match(_getattr(child, self.pathattr), name) for child in node.children):
+                raise ChildResolverError(node, name, self.pathattr)
+        return self.__find(node, name, remainder)
 
     def __find(self, node, pat, remainder):
         matches = []
